@@ -543,7 +543,8 @@ def _full_from_partial(elems: Sequence, traceless: bool, labels: Sequence[str]) 
     orthonormal basis.
     """
     # Convert elems to basis to have access to its handy attributes
-    elems = Basis(elems)
+    # (normalize a copy, elems might be a Basis instance owned by the caller)
+    elems = Basis(np.array(elems, copy=True))
     elems.normalize(copy=False)
 
     if not elems.isherm:
